@@ -33,6 +33,7 @@ def expect(A, call):
     """returns ('accept',) | ('reject', set_of_allowed_class_codes) | ('any',) for one call.
     A: abstract(before), call: dict of the harness' call facts."""
     kind = call['call.kind']
+    if A['aused'] is None: return ('any',)     # an ANALOG group without parameters (Optotrak layout): the documented contract is silent (C10 still requires 'unchanged' if refused)
     if kind == 0:      # frame(f[, idx])
         nP = call['arg.nbPoints']; nS = call['arg.nbSubframes']; nC = call['arg.nbChannels']
         reasons = set(); free = False
